@@ -829,7 +829,11 @@ class Interp:
             kv = self.force(self.eval(k))
             pk = self.pyconst(kv)
             if pk is MISSING:
-                raise Unsupported("dict literal with symbolic key")
+                # a symbolic key: fine when it is the only entry (no other key it could collide with)
+                if len(n.keys) != 1 or not hasattr(kv, "t"):
+                    raise Unsupported("dict literal with symbolic key")
+                d = d.set(kv, self.eval(v))
+                continue
             d = d.set(pk, self.eval(v))
         ref = Ref(self.fresh_name("dict"))
         self.heap.data[(ref, "$")] = d
